@@ -13,7 +13,7 @@ ID = 'C06'
 LEVEL = 'exploration'
 RULE = ('Case = declarations of 1-3 measurements (scalar / 1-D / 2-D; validators from {in_range with marginal bands, equals, '
         'matches_regex, within_percent, threshold validator that records the values it sees, raising validator}; transform from '
-        '{none, precision n, x k, str}; conditional validators keyed on diagnosis results that an earlier phase may or may not emit) '
+        '{none, precision n, x k, str}; conditional validators keyed on diagnosis results that an earlier phase may or may not emit, as ordinary or internal diagnoses) '
         'x an operation history (<=25 ops) executed by a real phase body through the TestApi: set, override, set coordinate, '
         'override coordinate, set undeclared name, set dimensioned without coordinates, wrong coordinate arity, unhashable '
         'coordinate, read back; values from ints, floats incl. NaN/+-inf/-0.0, None, str, bool, huge ints.  Oracle = dict model: '
@@ -168,7 +168,8 @@ def check(case):
 
   @htf.PhaseDiagnoser(R, name='emitter')
   def emitter(phase_record):
-    return [htf.Diagnosis(members[x], 'd') for x in case['diag']]
+    # results are issued as ordinary or as internal diagnoses (internal ones steer later phases without being exported)
+    return [htf.Diagnosis(members[x], 'd', is_internal=bool(x in case.get('internal', ()))) for x in case['diag']]
 
   @htf.diagnose(emitter)
   def first(test):
@@ -486,6 +487,7 @@ def cases(draw):
   flat = [o for c in chunks for o in c][:25]
   return {'meas': draw(st.lists(decl(), min_size=1, max_size=3)),
           'diag': sorted(draw(st.sets(st.integers(0, 3), max_size=3))),
+          'internal': sorted(draw(st.sets(st.integers(0, 3), max_size=2))),
           'ops': flat,
           'allow_unset': draw(st.booleans())}
 
